@@ -428,8 +428,12 @@ func (g *declGen) object(fs []string, intField string, item *ItemModel) D {
 		tn := "tplarg"
 		src := "s.reverse(); s.length"
 		if g.t.Bool("decl.collide.argedit.obj") {
-			g.templates[tn] = D{"object": D{"v": D{"xpath": fs[0]}, "c": D{"const": "tc"}}}
+			g.templates[tn] = D{"object": D{"v": D{"xpath": fs[0]}, "c": D{"const": "tc"}, "m": D{"const": "tm"}, "a": D{"const": "ta"}, "z": D{"xpath": fs[len(fs)-1], "keep_empty_or_null": true}}}
 			src = "s.c = 'edited'; s.extra = 1; s.v"
+			if g.t.Bool("decl.collide.argedit.enumerate") {
+				// ... or only looks at it: the keys of an object argument, in the order the script sees them
+				src = "Object.keys(s).join(',') + '|' + JSON.stringify(s)"
+			}
 		} else {
 			g.templates[tn] = D{"array": []interface{}{D{"xpath": fs[0]}, D{"const": "z9"}, D{"xpath": fs[len(fs)-1]}}}
 		}
@@ -439,6 +443,19 @@ func (g *declGen) object(fs []string, intField string, item *ItemModel) D {
 			obj["ka_out"], obj["kb_js"] = D{"template": tn}, js
 		} else {
 			obj["kb_out"], obj["ka_js"] = D{"template": tn}, js
+		}
+	}
+	if g.o.Collide && !g.o.NoJS && g.depth == 1 && len(fs) >= 2 && g.t.Chance("decl.collide.dynarray", 1, 4) {
+		// the same array declaration once as an output field and once as the argument of a function
+		// that computes an xpath_dynamic (declarations below an xpath_dynamic are a world of their own
+		// for the validator)
+		g.usesJS = true
+		arr := func() D { return D{"array": []interface{}{D{"xpath": fs[0]}}} }
+		obj["kd_list"] = arr()
+		obj["kd_dyn"] = D{"xpath_dynamic": cf("javascript", D{"const": "l && l.length > 0 ? '" + fs[0] + "' : '" + fs[1] + "'"}, D{"const": "l"}, arr()), "keep_empty_or_null": true}
+		if g.t.Bool("decl.collide.dynarray.order") {
+			obj["ka_list"] = obj["kd_list"]
+			delete(obj, "kd_list")
 		}
 	}
 	if g.o.Collide && g.t.Chance("decl.collide.empty", 1, 4) {
